@@ -44,7 +44,13 @@ elif [ "$cmd" = harmless ]; then
     for p in $props; do
       out=$(./check $p 2>&1 | tail -1 | cut -c1-200)
       echo "   $out"
-      case "$out" in OK*) ;; *) bad=1;; esac
+      case "$out" in
+        OK*) ;;
+        *no-failing-input-found)
+          # a proof obligation broke without any behavioural difference: tolerated only where the corpus entry says so
+          if grep -q '^# expect: static-tie no-failing-input-found' "${f%.diff}.txt" 2>/dev/null; then echo "     (expected: documented limit of the static tie)"; else bad=1; fi;;
+        *) bad=1;;
+      esac
     done
     git -C /repo checkout -- .
   done
